@@ -1768,7 +1768,14 @@ class Entity(Instance):
                 scope_name == name
             ), f"invalid port name '{name}': not a valid VHDL identifier, reserved or colliding with another name (the architecture would refer to it as '{scope_name}')"
 
-            ret.append(f"{name} : {dir_str} {self._scope.format_type(obj)};")
+            if direction.is_inout() and port.has_default():
+                # inout ports are not buffered, the default value
+                # is the initial value of the driver of the port
+                ret.append(
+                    f"{name} : {dir_str} {self._scope.format_type(obj)} := {self._scope.format_literal(port.default())};"
+                )
+            else:
+                ret.append(f"{name} : {dir_str} {self._scope.format_type(obj)};")
 
         if len(ret) != 0:
             # remove terminating semicolon
